@@ -12,9 +12,9 @@ const PT_DYNAMIC: u32 = 2;
 const PT_NOTE: u32 = 4;
 
 #[derive(Clone)]
-struct Seg { ptype: u32, flags: u32, vaddr: u64, filesz: u64, memsz: u64, align: u64, data: Vec<u8>, offset: u64 }
+struct Seg { ptype: u32, flags: u32, vaddr: u64, paddr: u64, filesz: u64, memsz: u64, align: u64, data: Vec<u8>, offset: u64 }
 #[derive(Clone)]
-struct Sym { name: String, value: u64, shndx: u16, bind: u8, typ: u8 }
+struct Sym { name: String, value: u64, size: u64, shndx: u16, bind: u8, typ: u8 }
 #[derive(Clone)]
 struct Rel { offset: u64, sym: u32, typ: u32 }
 #[derive(Clone)]
@@ -28,6 +28,9 @@ struct Desc {
     dyn_seg: Option<usize>,
     /// MIPS: (DT_MIPS_LOCAL_GOTNO, DT_MIPS_GOTSYM, initial GOT words); DT_MIPS_SYMTABNO = dynsyms.len()
     mips: Option<(u64, u64, Vec<u32>)>,
+    /// section headers: 0 = as a linker writes them, 1 = absent (e_shoff = 0), 2 = present with wrong sh_addr and
+    /// two garbage PROGBITS/NOBITS headers (the loader must use the program headers)
+    sh_mode: u8,
 }
 
 struct W { big: bool, is64: bool, b: Vec<u8> }
@@ -52,8 +55,8 @@ fn strtab(names: &[String]) -> (Vec<u8>, Vec<u32>) {
 }
 fn put_sym(w: &mut W, name: u32, s: &Sym) {
     let info = (s.bind << 4) | (s.typ & 0xf);
-    if w.is64 { w.u32(name); w.u8(info); w.u8(0); w.u16(s.shndx); w.u64(s.value); w.u64(0); }
-    else { w.u32(name); w.u32(s.value as u32); w.u32(0); w.u8(info); w.u8(0); w.u16(s.shndx); }
+    if w.is64 { w.u32(name); w.u8(info); w.u8(0); w.u16(s.shndx); w.u64(s.value); w.u64(s.size); }
+    else { w.u32(name); w.u32(s.value as u32); w.u32(s.size as u32); w.u8(info); w.u8(0); w.u16(s.shndx); }
 }
 
 /// Builds the dynamic blob (.dynsym .dynstr .hash .rel[a].plt .rel[a].dyn .dynamic) for vaddr `va`.
@@ -75,7 +78,7 @@ fn dyn_blob(d: &Desc, va: u64) -> (Vec<u8>, u64, u64, u64, u64) {
     for _ in 0..nsyms { w.u32(0); }
     let rela = d.is64;
     let put_rel = |w: &mut W, r: &Rel| {
-        if w.is64 { w.u64(r.offset); w.u64(((r.sym as u64) << 32) | r.typ as u64); if rela { w.u64(0); } }
+        if w.is64 { w.u64(r.offset); w.u64(((r.sym as u64) << 32) | r.typ as u64); if rela { w.u64(r.offset ^ 0x5a5a); } }
         else { w.u32(r.offset as u32); w.u32((r.sym << 8) | (r.typ & 0xff)); }
     };
     let relent: u64 = if d.is64 { 24 } else { 8 };
@@ -168,26 +171,36 @@ fn write_elf(d: &mut Desc, r: &mut Rng) -> Vec<u8> {
     put_sh(&mut sh, shoffs[1], 3, 0, strtab_off, strs.len() as u64, 0, 0);
     put_sh(&mut sh, shoffs[2], 3, 0, shstr_off, shstr.len() as u64, 0, 0);
     let mut shnum = 4u16;
+    // sh_mode 2: sh_addr of .dynstr/.dynsym is NOT the address the program headers give
+    let bogus = if d.sh_mode == 2 { 0x0123_0000u64 } else { 0 };
     if let Some((k, _, _, stroff, strsz, _)) = dyninfo {
         let s = &d.segs[k];
-        put_sh(&mut sh, shoffs[3], 3, s.vaddr + stroff, s.offset + stroff, strsz, 0, 0);
-        put_sh(&mut sh, shoffs[4], 11, s.vaddr, s.offset, d.dynsyms.len() as u64 * syment, 4, syment);
+        put_sh(&mut sh, shoffs[3], 3, (s.vaddr + stroff) ^ bogus, s.offset + stroff, strsz, 0, 0);
+        put_sh(&mut sh, shoffs[4], 11, s.vaddr ^ bogus, s.offset, d.dynsyms.len() as u64 * syment, 4, syment);
         shnum = 6;
+    }
+    if d.sh_mode == 2 {
+        // garbage: a PROGBITS section claiming a loaded address with a file range far outside the file, a NOBITS nowhere
+        let v0 = d.segs.iter().find(|s| s.ptype == PT_LOAD).map(|s| s.vaddr).unwrap_or(0x1000);
+        put_sh(&mut sh, shoffs[0], 1, v0 + 0x55, 0x7fff_ff00, 0x1000, 0, 0);
+        put_sh(&mut sh, shoffs[1], 8, 0x9999_0000, 0, 0x4000, 0, 0);
+        shnum += 2;
     }
     // header
     let mut w = W { big: d.big, is64: d.is64, b: vec![] };
     w.b.extend_from_slice(&[0x7f, b'E', b'L', b'F', if d.is64 { 2 } else { 1 }, if d.big { 2 } else { 1 }, 1, 0, 0, 0, 0, 0, 0, 0, 0, 0]);
     w.u16(d.etype); w.u16(d.machine); w.u32(1);
+    let (shoff, shnum, shstrndx) = if d.sh_mode == 1 { (0, 0, 0) } else { (shoff, shnum, 3) };
     w.word(d.entry); w.word(ehsize); w.word(shoff);
-    w.u32(0); w.u16(ehsize as u16); w.u16(phent as u16); w.u16(phnum as u16); w.u16(shent as u16); w.u16(shnum); w.u16(3);
-    let put_ph = |w: &mut W, t: u32, fl: u32, o: u64, va: u64, fs: u64, ms: u64, al: u64| {
-        if w.is64 { w.u32(t); w.u32(fl); w.u64(o); w.u64(va); w.u64(va); w.u64(fs); w.u64(ms); w.u64(al); }
-        else { w.u32(t); w.u32(o as u32); w.u32(va as u32); w.u32(va as u32); w.u32(fs as u32); w.u32(ms as u32); w.u32(fl); w.u32(al as u32); }
+    w.u32(0); w.u16(ehsize as u16); w.u16(phent as u16); w.u16(phnum as u16); w.u16(shent as u16); w.u16(shnum); w.u16(shstrndx);
+    let put_ph = |w: &mut W, t: u32, fl: u32, o: u64, va: u64, pa: u64, fs: u64, ms: u64, al: u64| {
+        if w.is64 { w.u32(t); w.u32(fl); w.u64(o); w.u64(va); w.u64(pa); w.u64(fs); w.u64(ms); w.u64(al); }
+        else { w.u32(t); w.u32(o as u32); w.u32(va as u32); w.u32(pa as u32); w.u32(fs as u32); w.u32(ms as u32); w.u32(fl); w.u32(al as u32); }
     };
-    for s in &d.segs { put_ph(&mut w, s.ptype, s.flags, s.offset, s.vaddr, s.filesz, s.memsz, s.align); }
+    for s in &d.segs { put_ph(&mut w, s.ptype, s.flags, s.offset, s.vaddr, s.paddr, s.filesz, s.memsz, s.align); }
     if let Some((k, dynoff, dynsz, _, _, _)) = dyninfo {
         let s = &d.segs[k];
-        put_ph(&mut w, PT_DYNAMIC, 6, s.offset + dynoff, s.vaddr + dynoff, dynsz, dynsz, 4);
+        put_ph(&mut w, PT_DYNAMIC, 6, s.offset + dynoff, s.vaddr + dynoff, s.paddr.wrapping_add(dynoff), dynsz, dynsz, 4);
     }
     assert_eq!(w.b.len() as u64, body_base);
     w.b.extend_from_slice(&body);
@@ -231,9 +244,12 @@ fn gen_desc(r: &mut Rng, force: Option<(u16, bool, bool)>) -> Desc {
         let flags = if r.chance(1, 6) { (r.below(8) as u32) | 0x0070_0000 } else { r.below(8) as u32 };
         let ptype = if r.chance(1, 8) { PT_NOTE } else { PT_LOAD };
         let data: Vec<u8> = (0..filesz).map(|_| r.range(1, 255) as u8).collect();
-        segs.push(Seg { ptype, flags, vaddr: va, filesz, memsz, align: *r.pick(&[1u64, 4, 0x1000, 3, 0]), data, offset: 0 });
+        // p_paddr is unrelated to p_vaddr: equal, 0, shifted, or (below) another segment's p_vaddr
+        let paddr = match r.below(5) { 0 => va, 1 => 0, 2 => va + 0x10_0000, 3 => va.wrapping_sub(r.range(1, 0x40)), _ => r.below(0x7fff_0000) };
+        segs.push(Seg { ptype, flags, vaddr: va, paddr, filesz, memsz, align: *r.pick(&[1u64, 4, 0x1000, 3, 0, 7, 0x10001, 5]), data, offset: 0 });
         if overlap && r.chance(1, 2) { va += memsz / 2; } else { va += memsz + match r.below(4) { 0 => 0, 1 => 1, _ => r.range(2, 0x300) }; }
     }
+    if segs.len() >= 2 && r.chance(1, 3) { let v = segs[1].vaddr; segs[0].paddr = v; }
     let loads: Vec<(u64, u64)> = segs.iter().filter(|s| s.ptype == PT_LOAD).map(|s| (s.vaddr, s.memsz)).collect();
     let addr_in = |r: &mut Rng| -> u64 {
         if loads.is_empty() || r.chance(1, 8) { vbase + r.below(0x400) } else { let (a, m) = *r.pick(&loads); a + r.below(m.max(1)) }
@@ -241,18 +257,20 @@ fn gen_desc(r: &mut Rng, force: Option<(u16, bool, bool)>) -> Desc {
     let entry = match r.below(8) { 0 => 0, _ => addr_in(r) };
     let pool = ["main", "foo", "bar", "init", "_start", "baz", "qux", "memcpy", "puts", "data_obj"];
     let gen_syms = |r: &mut Rng, n: usize, entry: u64, addr_in: &dyn Fn(&mut Rng) -> u64| -> Vec<Sym> {
-        let mut v = vec![Sym { name: String::new(), value: 0, shndx: 0, bind: 0, typ: 0 }];
+        let mut v = vec![Sym { name: String::new(), value: 0, size: 0, shndx: 0, bind: 0, typ: 0 }];
         for _ in 0..n {
             let typ = *r.pick(&[2u8, 2, 2, 1, 0, 3, 2]);
             let undefined = r.chance(1, 5);
             let value = if undefined && r.chance(2, 3) { 0 } else if r.chance(1, 8) { entry } else { addr_in(r) };
-            let shndx = if undefined { 0 } else if r.chance(1, 10) { 0xfff1 } else { r.range(1, 5) as u16 };
-            v.push(Sym { name: rand_name(r, &pool), value, shndx, bind: *r.pick(&[1u8, 1, 0, 2]), typ });
+            let shndx = if undefined { 0 } else if r.chance(1, 6) { *r.pick(&[0xfff1u16, 0xfff2, 0xffff, 0xff00]) } else { r.range(1, 5) as u16 };
+            // st_size is unrelated to st_value (sometimes another address, sometimes the value itself)
+            let size = match r.below(4) { 0 => 0, 1 => value, 2 => addr_in(r), _ => r.below(0x100) };
+            v.push(Sym { name: rand_name(r, &pool), value, size, shndx, bind: *r.pick(&[1u8, 1, 0, 2]), typ });
         }
         v
     };
     let syms = if r.chance(1, 6) { vec![] } else { let n = r.range(0, 6) as usize; gen_syms(r, n, entry, &addr_in) };
-    let mut d = Desc { is64, big, machine, etype: if r.chance(1, 2) { 2 } else { 3 }, entry, segs, syms, dynsyms: vec![], pltrels: vec![], dynrels: vec![], needed: vec![], dyn_seg: None, mips: None };
+    let mut d = Desc { is64, big, machine, etype: if r.chance(1, 2) { 2 } else { 3 }, entry, segs, syms, dynsyms: vec![], pltrels: vec![], dynrels: vec![], needed: vec![], dyn_seg: None, mips: None, sh_mode: if force386 { 0 } else { *r.pick(&[0u8, 0, 0, 1, 2, 2]) } };
     if r.chance(3, 5) || force386 {
         // dynamic section inside a dedicated RW PT_LOAD segment placed first
         let n = r.range(1, 6) as usize;
@@ -266,7 +284,7 @@ fn gen_desc(r: &mut Rng, force: Option<(u16, bool, bool)>) -> Desc {
                 d.pltrels.push(Rel { offset: addr_in(r), sym: r.range(if nds > 1 { 1 } else { 0 }, nds - 1) as u32, typ: 7 });
             }
         }
-        d.segs.insert(0, Seg { ptype: PT_LOAD, flags: 6, vaddr: dva, filesz: 0, memsz: r.below(48), align: 4, data: extra, offset: 0 });
+        d.segs.insert(0, Seg { ptype: PT_LOAD, flags: 6, vaddr: dva, paddr: if r.chance(1, 2) { dva } else { r.below(0x7fff_0000) }, filesz: 0, memsz: r.below(48), align: 4, data: extra, offset: 0 });
         d.dyn_seg = Some(0);
     }
     d
@@ -329,6 +347,9 @@ fn gen_case(seed: u64, idx: u64, dir: &str) -> Case {
         if d.dyn_seg.is_some() { tags.push("has:dynamic".into()); }
         if !d.pltrels.is_empty() { tags.push("has:pltrelocs".into()); }
         if d.segs.iter().any(|s| s.ptype == PT_LOAD && s.filesz < s.memsz) { tags.push("has:zero-fill".into()); }
+        if d.segs.iter().any(|s| s.ptype == PT_LOAD && s.paddr != s.vaddr) { tags.push("has:paddr-ne-vaddr".into()); }
+        if d.segs.iter().any(|s| s.ptype == PT_LOAD && s.filesz == 0 && s.memsz > 0) { tags.push("has:pure-bss".into()); }
+        tags.push(format!("shdrs:{}", ["normal", "absent", "garbage"][d.sh_mode as usize]));
         let load = |b: u64| -> Result<Elf, falcon::Error> {
             let mut e = Elf::from_file_with_base_address(&path, b)?;
             for u in &users { e.add_user_function(*u); }
@@ -371,11 +392,11 @@ fn gen_case(seed: u64, idx: u64, dir: &str) -> Case {
             lib.etype = 3;
             let nexp = r.range(1, 3);
             let (lva, lms) = lib.segs.iter().filter(|s| s.ptype == PT_LOAD).map(|s| (s.vaddr, s.memsz)).last().unwrap();
-            lib.dynsyms = vec![Sym { name: String::new(), value: 0, shndx: 0, bind: 0, typ: 0 }];
+            lib.dynsyms = vec![Sym { name: String::new(), value: 0, size: 0, shndx: 0, bind: 0, typ: 0 }];
             for k in 0..nexp {
                 // the second library sometimes also defines f0: the first definition (libx.so) must win
                 let nm = if li == 1 && k == 0 && r.chance(1, 3) { "f0".to_string() } else { format!("{}{}", pref[li], k) };
-                lib.dynsyms.push(Sym { name: nm.clone(), value: lva + r.below(lms.max(1)).max(1), shndx: 1, bind: 1, typ: 2 });
+                lib.dynsyms.push(Sym { name: nm.clone(), value: lva + r.below(lms.max(1)).max(1), size: 0, shndx: 1, bind: 1, typ: 2 });
                 if !wanted.contains(&nm) { wanted.push(nm); }
             }
             lib.pltrels.clear(); lib.dynrels.clear(); lib.needed.clear();
@@ -387,9 +408,9 @@ fn gen_case(seed: u64, idx: u64, dir: &str) -> Case {
         let mut main = gen_desc(r, Some((3, false, false)));
         main.etype = 2;
         main.needed = if interp { vec!["libx.so".to_string()] } else { names[..nlibs].iter().map(|s| s.to_string()).collect() };
-        if interp { main.segs.push(Seg { ptype: 3, flags: 4, vaddr: 0, filesz: 7, memsz: 7, align: 1, data: b"/ld.so\0".to_vec(), offset: 0 }); }
-        main.dynsyms = vec![Sym { name: String::new(), value: 0, shndx: 0, bind: 0, typ: 0 }];
-        for nm in &wanted { main.dynsyms.push(Sym { name: nm.clone(), value: 0, shndx: 0, bind: 1, typ: 2 }); }
+        if interp { main.segs.push(Seg { ptype: 3, flags: 4, vaddr: 0, paddr: 0, filesz: 7, memsz: 7, align: 1, data: b"/ld.so\0".to_vec(), offset: 0 }); }
+        main.dynsyms = vec![Sym { name: String::new(), value: 0, size: 0, shndx: 0, bind: 0, typ: 0 }];
+        for nm in &wanted { main.dynsyms.push(Sym { name: nm.clone(), value: 0, size: 0, shndx: 0, bind: 1, typ: 2 }); }
         // a GOT: one 4-byte slot per relocation at the end of the dynamic segment's extra data
         let nrel = r.range(1, 4);
         main.segs[0].data = vec![0x11; (nrel * 4 + 8) as usize];
@@ -434,7 +455,7 @@ fn gen_case(seed: u64, idx: u64, dir: &str) -> Case {
         let sub = format!("{}/mlink_{}", dir, idx);
         std::fs::create_dir_all(&sub).unwrap();
         let big = r.chance(1, 2);
-        let null = Sym { name: String::new(), value: 0, shndx: 0, bind: 0, typ: 0 };
+        let null = Sym { name: String::new(), value: 0, size: 0, shndx: 0, bind: 0, typ: 0 };
         let word = |r: &mut Rng| -> u32 { r.below(0x1000) as u32 };
         // ---- library: local symbol(s), exported functions f0.., optionally an undefined reference to main's g0
         let mut lib = gen_desc(r, Some((8, false, big)));
@@ -443,11 +464,11 @@ fn gen_case(seed: u64, idx: u64, dir: &str) -> Case {
         let (lva, lms) = lib.segs.iter().filter(|s| s.ptype == PT_LOAD).map(|s| (s.vaddr, s.memsz)).last().unwrap();
         let nloc = r.below(2);
         lib.dynsyms = vec![null.clone()];
-        for k in 0..nloc { lib.dynsyms.push(Sym { name: format!("loc{}", k), value: lva + r.below(lms.max(1)).max(1), shndx: 1, bind: 0, typ: 2 }); }
+        for k in 0..nloc { lib.dynsyms.push(Sym { name: format!("loc{}", k), value: lva + r.below(lms.max(1)).max(1), size: r.below(64), shndx: 1, bind: 0, typ: 2 }); }
         let lgs = lib.dynsyms.len() as u64;
-        for k in 0..nexp { lib.dynsyms.push(Sym { name: format!("f{}", k), value: lva + r.below(lms.max(1)).max(1), shndx: 1, bind: 1, typ: 2 }); }
+        for k in 0..nexp { lib.dynsyms.push(Sym { name: format!("f{}", k), value: lva + r.below(lms.max(1)).max(1), size: r.below(64), shndx: 1, bind: 1, typ: 2 }); }
         let lib_uses_g0 = r.chance(1, 2);
-        if lib_uses_g0 { lib.dynsyms.push(Sym { name: "g0".into(), value: 0, shndx: 0, bind: 1, typ: 2 }); }
+        if lib_uses_g0 { lib.dynsyms.push(Sym { name: "g0".into(), value: 0, size: 0, shndx: 0, bind: 1, typ: 2 }); }
         let llg = r.range(2, 4);
         let mut lgot: Vec<u32> = (0..llg).map(|_| word(r)).collect();
         for s in lib.dynsyms.iter().skip(lgs as usize) { lgot.push(if s.shndx == 0 { 0 } else { s.value as u32 }); }
@@ -465,9 +486,9 @@ fn gen_case(seed: u64, idx: u64, dir: &str) -> Case {
         main.etype = 2;
         main.needed = vec!["libx.so".into()];
         let (mva, mms) = main.segs.iter().filter(|s| s.ptype == PT_LOAD).map(|s| (s.vaddr, s.memsz)).last().unwrap();
-        main.dynsyms = vec![null.clone(), Sym { name: "g0".into(), value: mva + r.below(mms.max(1)).max(1), shndx: 1, bind: 1, typ: 2 }];
+        main.dynsyms = vec![null.clone(), Sym { name: "g0".into(), value: mva + r.below(mms.max(1)).max(1), size: 0, shndx: 1, bind: 1, typ: 2 }];
         let mgs = if r.chance(1, 2) { 1 } else { 2 };
-        for k in 0..nexp { main.dynsyms.push(Sym { name: format!("f{}", k), value: 0, shndx: 0, bind: 1, typ: 2 }); }
+        for k in 0..nexp { main.dynsyms.push(Sym { name: format!("f{}", k), value: 0, size: 0, shndx: 0, bind: 1, typ: 2 }); }
         let mlg = r.range(2, 4);
         let mut mgot: Vec<u32> = (0..mlg).map(|_| word(r)).collect();
         for s in main.dynsyms.iter().skip(mgs as usize) { mgot.push(if s.shndx == 0 { 0 } else { s.value as u32 }); }
